@@ -82,3 +82,7 @@ Inductive log_queue_kind := LogQueueSync | LogQueueAsync | LogQueueUnknown.
 (* lab.TaskCoordinator.run: is the runner of a call built from the Lab's context as it is when run_tasks is called (CtxAtRun), or
    from something bound when the Lab was constructed (CtxAtInit)? *)
 Inductive ctx_binding := CtxAtRun | CtxAtInit | CtxBindUnknown.
+
+(* lab.TaskCoordinator.run / process_completed_tasks: which outcomes handed back by runner.wait() count as a failed task —
+   every BaseException instance (what the runners catch and hand back), or Exception instances only? *)
+Inductive fail_test := FailBaseException | FailException | FailTestUnknown.
